@@ -14,6 +14,7 @@ import (
 	"pgregory.net/rapid"
 
 	"verif/harness/cs"
+	"verif/harness/ev"
 	"verif/harness/gen"
 	"verif/harness/model"
 	"verif/harness/run"
@@ -308,9 +309,12 @@ func init() {
 }
 
 func TestC17(t *testing.T) {
-	col := collector("C17", ruleC17)
+	check(t, "C17", cases(14000, 400000), 0, propC17(collector("C17", ruleC17)))
+}
+
+func propC17(col *ev.Collector) func(rt *rapid.T) {
 	vcfg := gen.ValCfg{MaxDepth: 1, NonUTF8: true}
-	check(t, "C17", cases(8000, 150000), 0, func(rt *rapid.T) {
+	return func(rt *rapid.T) {
 		c := &c17Case{Backend: rapid.SampledFrom([]string{run.Bbolt, run.Bbolt, run.BadgerMem}).Draw(rt, "backend"),
 			SameTx: rapid.Bool().Draw(rt, "sametx"), Decoy: rapid.SampledFrom([]string{"fx", "fx", "e", "", "f.a"}).Draw(rt, "decoy")}
 		if rapid.IntRange(0, 2).Draw(rt, "long-names") == 0 {
@@ -402,5 +406,5 @@ func TestC17(t *testing.T) {
 				return map[string]interface{}{"entries": len(c.Values), "range": r.String(), "reverse": c.Reverse[i], "in_range": in, "backend": c.Backend, "same_tx": c.SameTx}
 			}, cl...)
 		}
-	})
+	}
 }
